@@ -475,6 +475,8 @@ pub enum Piece {
     ToBoundary(i8),
     /// k blocks - fill + delta
     Blocks(u8, i8),
+    /// a long piece: 2 KiB + 4 * n bytes (up to ~260 KiB)
+    Big(u16),
 }
 
 #[derive(Clone, Debug, Serialize, Deserialize)]
@@ -500,9 +502,10 @@ pub struct HHistory {
 
 pub fn piece() -> BoxedStrategy<Piece> {
     prop_oneof![
-        4 => prop_oneof![Just(0u16), Just(1u16), 0u16..700].prop_map(Piece::Fixed),
-        4 => (-2i8..3).prop_map(Piece::ToBoundary),
-        3 => (1u8..5, -2i8..3).prop_map(|(k, d)| Piece::Blocks(k, d)),
+        16 => prop_oneof![Just(0u16), Just(1u16), 0u16..700].prop_map(Piece::Fixed),
+        16 => (-2i8..3).prop_map(Piece::ToBoundary),
+        12 => (1u8..5, -2i8..3).prop_map(|(k, d)| Piece::Blocks(k, d)),
+        1 => prop_oneof![4 => 0u16..4096, 1 => any::<u16>()].prop_map(Piece::Big),
     ]
     .boxed()
 }
@@ -542,6 +545,7 @@ pub fn piece_len(p: &Piece, fill: usize, b: usize) -> usize {
         Piece::Fixed(n) => *n as usize,
         Piece::ToBoundary(d) => (b as i64 - fill as i64 + *d as i64).max(0) as usize,
         Piece::Blocks(k, d) => ((*k as i64) * b as i64 - fill as i64 + *d as i64).max(0) as usize,
+        Piece::Big(k) => 2048 + 4 * (*k as usize),
     }
 }
 
@@ -613,6 +617,7 @@ pub fn hhistory_check(prop: &str, specs: &[HashSpec], c: &HHistory, info: &mut C
                 }
                 info.label_if(n > 0 && newfill == 0, "piece fills the buffer exactly");
                 info.label_if(fill + n > 2 * b, "piece spans several blocks");
+                info.label_if(n >= 4096, "piece of >= 4 KiB");
             }
             HOp::Clone(i) => {
                 if live.len() < 6 {
